@@ -205,6 +205,15 @@ class Block(object):
             return self.fn.nodes[self.term["c"]]
         return None
 
+    def effective_cond(self):
+        """the operand whose value decides the branch *in this block*: for a
+        terminator condition `A && B` / `A || B` the block is only reached when
+        A did not short-circuit, so the edge taken is decided by B alone."""
+        c = self.cond()
+        while c is not None and c.get("k") == "bin" and c.get("op") in ("&&", "||"):
+            c = c.child("r")
+        return c
+
 
 class Function(object):
     def __init__(self, raw, types, unit):
